@@ -132,7 +132,7 @@ def flat_as_table(d):
 # ------------------------------------------------------------------ generators
 
 
-FIELD_KINDS = ["sq", "u8vec", "f32mat", "f64", "i32", "boolvec", "u8"]
+FIELD_KINDS = ["sq", "u8vec", "f32mat", "f64", "i32", "boolvec", "u8", "bigint", "bigint", "f32", "f16"]
 
 
 def make_field(kind, ids):
@@ -153,6 +153,13 @@ def make_field(kind, ids):
         return (ids * 3 - 1000).to(torch.int32)
     if kind == "boolvec":
         return torch.stack([(ids >> j) % 2 == 1 for j in range(4)], dim=1).reshape(n, 4)
+    if kind == "bigint":
+        # position hashes / game ids: integers no float32 (2**24), float64 (2**53) holds exactly
+        return ids * 2 + torch.tensor([(2**24 + 1, 2**31 - 5, 2**53 + 1, 2**62 + 3)[i % 4] for i in range(n)], dtype=torch.int64).reshape(n)
+    if kind == "f32":
+        return ids.to(torch.float32) * 0.0625 + 1.0 / 3.0
+    if kind == "f16":
+        return (ids % 97).to(torch.float16) * 0.5
     raise ValueError(kind)
 
 
